@@ -343,6 +343,12 @@ class SMUserList(UserList, ABC):
     def __ge__(self, other):
         return NotImplementedError
 
+    def __add__(self, other):
+        # list concatenation is only defined between sequences of the same class
+        if type(self) != type(other):
+            raise ValueError("can't concatenate different types of object")
+        return super().__add__(other)
+
     def append(self, item):
         """
         Append a value to an instance (SMUserList superclass method)
